@@ -35,6 +35,19 @@ Added probe family (round 8, v9_c04):
     offsets = C layout, consumed = dumped = len, element count), inside a run-time dimension together with a member
     (`raw[n * sizeof(N)]`: bytes consumed / dumped, element count, position of the following member) and in an array type
     made through the API (cs.resolve(EL)[Expression(cs, e)]).
+Added probe family (round 9, v10_c04):
+  * EXPLICIT MEMBER OFFSETS ON THE WRITE SIDE: structures built through the API whose members sit at explicit offsets that
+    leave forward GAPS (Field(name, type, offset=N) through cs._make_struct, T.add_field(.., offset=N) singly and in
+    start_update batches, Field objects appended to T.__fields__ + commit(), a T loaded from text - compiled or interpreted -
+    and extended by add_field), packed and aligned, either byte order, any pointer width; alone, as array element T[k], nested
+    at explicit offsets in a second API-built structure V (also as V's array member) and embedded in plain C text loaded
+    afterwards (`struct W { p; T t; T u[n]; q; }`).  Layout = "an explicit offset is where the member starts (aligned: next
+    multiple of its alignment), the others follow, the size ends behind the last member (aligned: rounded to the largest
+    alignment)"; len(T) = sizeof(T) = bytes consumed through a random public entry point = len of v.dumps() / T.dumps(v) /
+    bytes(v) / len(v) / the bytes v.write / T.write append to a BytesIO at position 0, at a later position and to a real file;
+    the dump is the zero image with each member's own encoding at its offset (gap bytes are zeros, members land at their
+    offsets); each member of the parsed value is what its type parses from the input at its offset; parse(dumps(v)) = v;
+    T() dumps to len(T) bytes and T(**members).dumps() = v.dumps().  Backward / overlapping offsets (F59) are not generated.
 """
 from __future__ import annotations
 
@@ -42,7 +55,7 @@ import ctypes
 import itertools
 import sys
 
-from .. import common, defs, impl, refimpl, s1_hist, s1_mixed, v8_c04, v9_c04
+from .. import common, defs, impl, refimpl, s1_hist, s1_mixed, v8_c04, v9_c04, v10_c04
 from ..common import Case, Result, mkrng
 from ..structprops import Engine, load, is_dynamic, bits_after_dynamic, small_unit_bits, has_union, has, rand_bytes
 
@@ -281,7 +294,12 @@ def run(env) -> Result:
                 "cs.typedefs (classes, string references such as int/DWORD/uint32_t/u4, add_type aliases and chains, typedefs of arrays / "
                 "pointers / structs, enums, legacy typedefs) has len = C size = bytes consumed (random public entry point) = bytes dumped, and "
                 "sizeof(name) inside random arithmetic gives the C value through Expression, #define, enum values, static array dimensions "
-                "(C layout, sizes, element count; load / loadfile / legacy parser), run-time dimensions and API-made array types. distinct = (definition text, align, pointer); non-trivial = >= 2 fields or a composite field")
+                "(C layout, sizes, element count; load / loadfile / legacy parser), run-time dimensions and API-made array types; explicit member "
+                "offsets on the write side: API-built structures (Field(.., offset=) via _make_struct / __fields__ + commit, add_field(.., offset=) "
+                "single and batched, text + add_field; packed and aligned) with forward gaps, alone, as array element, nested in another such "
+                "structure and embedded in C text: layout by the offset rule, len = sizeof = bytes consumed (random entry point) = bytes "
+                "produced by dumps / bytes() / len(v) / write to BytesIO at 0 and later positions / file, dump = zero image with the members' "
+                "encodings at their offsets, members read from their offsets, parse(dumps(v)) = v, T() and T(**members) dump to the declared size. distinct = (definition text, align, pointer); non-trivial = >= 2 fields or a composite field")
     eng = Engine(env, res, "C04")
     rnd = mkrng(env["seed"], "c04")
     tier = env["tier"]
@@ -334,6 +352,7 @@ def run(env) -> Result:
     seen_ct += pointer_histories(eng, res, mkrng(env["seed"], "c04-pointer-history"), tier)
     v8_c04.run(sys.modules[__name__], eng, res, mkrng(env["seed"], "c04-extended"), tier)
     v9_c04.run(sys.modules[__name__], eng, res, mkrng(env["seed"], "c04-sizeof-names"), tier)
+    v10_c04.run(sys.modules[__name__], eng, res, mkrng(env["seed"], "c04-explicit-offsets"), tier)
     eng.flush()
     res.notes.append(f"{seen_ct} layouts were also compared with ctypes (platform ABI)")
     res.sample({"definition": defs.render_struct("T", trees[-1]), "aligned_layout_example": "see feature histogram"})
